@@ -34,6 +34,9 @@ def run(ctx):
   rule_pm1(ctx)
   rule_hw(ctx)
   rule_constructions(ctx)
+  from . import c04
+  c04.rule_exhaust(ctx, c04.SEARCH_FUNCS_C05, "R-C05-EXHAUST")
+  ctx.expect("R-C05-EXHAUST", 5, "five candidate-search functions of the patterned / sparse families")
   ctx.expect("R-C05-CONSTRUCT", 4, "lattice, candidates, convergents, quadratic")
   ctx.expect("R-C05-SIZES", 2, "default list + override")
   ctx.expect("R-C05-CUT", 5, "two checks")
